@@ -1,7 +1,8 @@
 """C19 — the unknowns list names exactly the undeclared macros/environments used in text."""
 import t2t, corr, semrun
 
-OBLIGATIONS = ['Yalafi.C19_addUnknown_spec', 'Yalafi.C19_addUnknown_nodup', 'Yalafi.C19_addUnknown_math', 'Yalafi.C19_addUnknown_prefix']
+OBLIGATIONS = ['Yalafi.C19_addUnknown_spec', 'Yalafi.C19_addUnknown_nodup', 'Yalafi.C19_addUnknown_math', 'Yalafi.C19_addUnknown_prefix',
+               'Yalafi.C19_tex2txt_nodup', 'Yalafi.C19_tex2txt_nodup_current']
 
 def judge(case, res, exp):
     if res['outcome'] != 'ok':
